@@ -11,7 +11,10 @@ import (
 	"testing/fstest"
 	"time"
 
+	"github.com/foxboron/go-uefi/efi"
 	"github.com/foxboron/go-uefi/efi/device"
+	"github.com/foxboron/go-uefi/efi/efitest"
+	efifs "github.com/foxboron/go-uefi/efi/fs"
 	"github.com/foxboron/go-uefi/efivarfs/testfs"
 
 	"verif/gen/dpgen"
@@ -26,7 +29,7 @@ func init() {
 		ID:    "C18",
 		Level: "exploration",
 		Rule: "boot order: all 65536 boot numbers, each alone, and all lists of length 0..4 over {0000,0001,001A,00FF,ABCD,FFFF} in every order; the store holds BootOrder and one load option per number under the firmware's name Boot+4 upper-case hex digits; " +
-			"oracle: GetBootOrder returns exactly those names in order and GetBootEntry(name) yields the description stored for that number. " +
+			"oracle: GetBootOrder returns exactly those names in order and GetBootEntry(name) yields the description stored for that number, through the Efivarfs methods and through the package-level twins efi.GetBootOrder / efi.GetBootEntry over the same files. " +
 			"load options: attributes x descriptions x every ordered node sequence of length 0..3 over {PCI, ACPI, HD-MBR, HD-GPT, File, FvFile, USB} x per-kind field values, built by an independent encoder; oracle: every field recovered, " +
 			"File/HD nodes parse as the UEFI text form with equal field values; every BMP character and non-BMP characters across the planes as file path and description; every ordered pair of 15 options decoded into one reused EFILoadOption value (second decode exact, the node slice kept from the first unchanged). non-trivial = all oracle clauses evaluated; distinct = distinct encoded input",
 		Assumptions: []string{"independent encoder dpgen from UEFI 2.8 sections 3.1.3/10.3", "HD text form per UEFI 10.6.1.6 compared by value (padding and hex case not judged)"},
@@ -94,6 +97,30 @@ func c18Order(c *hx.Ctx, order []uint16) {
 			}
 			if e.Description != desc[n] {
 				firstFail = "boot entry resolved to another variable"
+				return
+			}
+		}
+		// the package-level (legacy) twins over the same files
+		efifs.SetFS(efitest.FromMapFS(files))
+		lnames := efi.GetBootOrder()
+		if len(lnames) != len(order) {
+			firstFail = fmt.Sprintf("package-level GetBootOrder returned %d names for %d entries", len(lnames), len(order))
+			names = lnames
+			return
+		}
+		for i, n := range order {
+			if lnames[i] != bootName(n) {
+				firstFail = "package-level GetBootOrder: name is not the firmware's name of the variable"
+				names = lnames
+			}
+			e, err := efi.GetBootEntry(lnames[i])
+			if err != nil || e == nil {
+				firstFail = "package-level GetBootOrder: returned name does not resolve through the package-level boot-entry accessor"
+				names = lnames
+				return
+			}
+			if e.Description != desc[n] {
+				firstFail = "package-level boot entry resolved to another variable"
 				return
 			}
 		}
